@@ -14,6 +14,12 @@ use std::time::{Duration, Instant};
 
 pub const ROOT: &str = "/verif";
 
+/// Where evidence and replay files go: /verif, or $NFSIM_OUT for side sweeps that must not
+/// touch the registered evidence.
+pub fn out() -> String {
+    std::env::var("NFSIM_OUT").unwrap_or_else(|_| ROOT.to_string())
+}
+
 fn arg(args: &[String], name: &str) -> Option<String> {
     args.iter().position(|a| a == name).and_then(|i| args.get(i + 1).cloned())
 }
@@ -89,8 +95,21 @@ fn spawn_worker(exe: &std::path::Path, prop: &str, seed: u64, id: usize, tx: &mp
     Worker { child, inflight: None, chunk: None, last_activity: Instant::now(), alive: true }
 }
 
+/// per run: what the cross-build comparison and the determinism proof need
+#[derive(Clone, Debug, PartialEq)]
+pub struct Brief {
+    pub digest: u64,
+    pub findings: usize,
+    pub oracle_evals: u64,
+    pub has_unknown_fields: bool,
+}
+
 pub struct Batch {
+    /// only runs with findings are kept whole; everything else is aggregated on arrival
     pub reports: Vec<RunReport>,
+    pub agg: Agg,
+    pub briefs: BTreeMap<u64, Brief>,
+    pub sample_seeds: Vec<u64>,
     /// (index, kind) of runs whose worker died or hung
     pub crashes: Vec<(u64, &'static str)>,
     pub wall: f64,
@@ -143,6 +162,10 @@ pub fn run_batch_with(exe: &std::path::Path, prop: &str, seed: u64, n: u64, work
     let files: Vec<String> = files.to_vec();
     let mut ws: Vec<Worker> = Vec::new();
     let mut reports: Vec<RunReport> = Vec::new();
+    let mut agg = Agg::new();
+    let mut briefs: BTreeMap<u64, Brief> = BTreeMap::new();
+    let mut sample_seeds: Vec<u64> = Vec::new();
+    let mut first_seed: Option<u64> = None;
     let mut crashes: Vec<(u64, &'static str)> = Vec::new();
     let give = |w: &mut Worker, queue: &mut VecDeque<(u64, u64)>| {
         if let Some((a, b)) = queue.pop_front() {
@@ -182,7 +205,32 @@ pub fn run_batch_with(exe: &std::path::Path, prop: &str, seed: u64, n: u64, work
                 } else if let Some(rest) = line.strip_prefix("END ") {
                     w.inflight = None;
                     if let Ok(r) = serde_json::from_str::<RunReport>(rest) {
-                        reports.push(r);
+                        agg.add(&r);
+                        briefs.insert(
+                            r.index,
+                            Brief {
+                                digest: r.stats.digest,
+                                findings: r.findings.len(),
+                                oracle_evals: r.stats.oracle_evals,
+                                has_unknown_fields: r.stats.probes.contains_key("unknown_field_type_value")
+                                    || r.stats.probes.contains_key("unknown_field_record_with_feature_off")
+                                    || r.stats.probes.contains_key("unknown_field_in_template")
+                                    // listed finding: the library's merged template of a multi-record
+                                    // IPFIX template set contains invented field numbers
+                                    || r.stats.probes.contains_key("ipfix_multi_template_set"),
+                            },
+                        );
+                        if r.index < CORPUS_BASE {
+                            if first_seed.is_none() {
+                                first_seed = Some(r.run_seed);
+                            }
+                            if r.stats.nontrivial && sample_seeds.len() < 3 {
+                                sample_seeds.push(r.run_seed);
+                            }
+                        }
+                        if !r.findings.is_empty() && reports.len() < 20000 {
+                            reports.push(r);
+                        }
                     }
                 } else if line.starts_with("DONE") {
                     if deadline.map(|d| Instant::now() > d).unwrap_or(false) {
@@ -243,7 +291,10 @@ pub fn run_batch_with(exe: &std::path::Path, prop: &str, seed: u64, n: u64, work
         }
     }
     reports.sort_by_key(|r| r.index);
-    Batch { reports, crashes, wall: start.elapsed().as_secs_f64() }
+    if sample_seeds.is_empty() {
+        sample_seeds.extend(first_seed);
+    }
+    Batch { reports, agg, briefs, sample_seeds, crashes, wall: start.elapsed().as_secs_f64() }
 }
 
 fn run_with_timeout(cmd: &mut Command, secs: u64) -> Option<(Option<i32>, bool, String)> {
@@ -287,15 +338,27 @@ fn reproduces(exe: &std::path::Path, path: &str, code: &str) -> bool {
 }
 
 fn tier_runs(prop: &str, tier: &str) -> u64 {
+    // sized from measured run rates on 16 cores: quick ~ 20-30 s, thorough ~ 8-10 min
     let quick = match prop {
-        "C01" => 6000,
-        "C15" => 3000,
-        "C16" => 5000,
-        "C11" | "C12" | "C14" => 6000,
-        _ => 8000,
+        "C01" => 10_000,
+        "C02" => 120_000,
+        "C04" => 60_000,
+        "C05" => 50_000,
+        "C06" => 40_000,
+        "C07" => 60_000,
+        "C09" => 60_000,
+        "C10" => 45_000,
+        "C11" => 35_000,
+        "C12" => 120_000,
+        "C13" => 70_000,
+        "C14" => 24_000,
+        "C15" => 5_000,
+        "C16" => 28_000,
+        "C17" => 30_000,
+        _ => 8_000,
     };
     match tier {
-        "thorough" => quick * 25,
+        "thorough" => quick * 20,
         _ => quick,
     }
 }
@@ -362,28 +425,31 @@ pub struct Agg {
     pub errors: u64,
 }
 
-pub fn aggregate(reports: &[RunReport]) -> Agg {
-    let mut a = Agg {
-        evaluations: 0,
-        digests: BTreeSet::new(),
-        nontrivial: 0,
-        deliveries: 0,
-        bytes: 0,
-        restarts: 0,
-        oracle_evals: 0,
-        conformant: 0,
-        panics: 0,
-        probes: BTreeMap::new(),
-        maxes: BTreeMap::new(),
-        fired: BTreeMap::new(),
-        states: BTreeSet::new(),
-        trigrams: BTreeSet::new(),
-        sim_ns: 0,
-        events: 0,
-        packets: 0,
-        errors: 0,
-    };
-    for r in reports {
+impl Agg {
+    pub fn new() -> Agg {
+        Agg {
+            evaluations: 0,
+            digests: BTreeSet::new(),
+            nontrivial: 0,
+            deliveries: 0,
+            bytes: 0,
+            restarts: 0,
+            oracle_evals: 0,
+            conformant: 0,
+            panics: 0,
+            probes: BTreeMap::new(),
+            maxes: BTreeMap::new(),
+            fired: BTreeMap::new(),
+            states: BTreeSet::new(),
+            trigrams: BTreeSet::new(),
+            sim_ns: 0,
+            events: 0,
+            packets: 0,
+            errors: 0,
+        }
+    }
+    pub fn add(&mut self, r: &RunReport) {
+        let a = self;
         let s: &RunStats = &r.stats;
         a.evaluations += 1;
         if s.nontrivial {
@@ -410,12 +476,15 @@ pub fn aggregate(reports: &[RunReport]) -> Agg {
         for (k, v) in &r.fired {
             *a.fired.entry(k.clone()).or_insert(0) += v;
         }
-        a.states.extend(s.states.iter());
-        a.trigrams.extend(s.trigrams.iter());
+        if a.states.len() < 2_000_000 {
+            a.states.extend(s.states.iter());
+        }
+        if a.trigrams.len() < 2_000_000 {
+            a.trigrams.extend(s.trigrams.iter());
+        }
         a.sim_ns += s.sim_ns;
         a.events += r.events as u64;
     }
-    a
 }
 
 struct Verdict {
@@ -439,10 +508,10 @@ pub fn check(args: &[String]) -> i32 {
     let off_bin = arg(args, "--off-bin");
     let exe = std::env::current_exe().expect("current exe");
     let start = Instant::now();
-    let _ = std::fs::create_dir_all(format!("{}/replays/raw", ROOT));
-    let _ = std::fs::create_dir_all(format!("{}/evidence", ROOT));
+    let _ = std::fs::create_dir_all(format!("{}/replays/raw", out()));
+    let _ = std::fs::create_dir_all(format!("{}/evidence", out()));
     // stale raw files of this property
-    if let Ok(rd) = std::fs::read_dir(format!("{}/replays/raw", ROOT)) {
+    if let Ok(rd) = std::fs::read_dir(format!("{}/replays/raw", out())) {
         for e in rd.flatten() {
             if e.file_name().to_string_lossy().starts_with(&format!("raw-{}-", prop)) {
                 let _ = std::fs::remove_file(e.path());
@@ -462,7 +531,7 @@ pub fn check(args: &[String]) -> i32 {
     let deadline = if tier == "quick" { Some(Instant::now() + Duration::from_secs(240)) } else { Some(Instant::now() + Duration::from_secs(3300)) };
     let corpus = corpus_files(&prop);
     let batch = run_batch_with(&exe, &prop, seed, runs, workers, Duration::from_secs(120), deadline, &corpus);
-    let agg = aggregate(&batch.reports);
+    let agg = &batch.agg;
     verdict.notes.push(format!("{} committed corpus / finding traces replayed under this property's oracles before the random search", corpus.len()));
 
     // C17: the same seeds through the binary built without the feature
@@ -473,15 +542,13 @@ pub fn check(args: &[String]) -> i32 {
             let b2 = run_batch(&offp, &prop, seed, runs, workers, Duration::from_secs(120), deadline);
             let mut compared = 0u64;
             let mut differing: Vec<u64> = Vec::new();
-            let on: BTreeMap<u64, &RunReport> = batch.reports.iter().map(|r| (r.index, r)).collect();
-            for r in &b2.reports {
-                if let Some(o) = on.get(&r.index) {
+            for (idx, r) in &b2.briefs {
+                if let Some(o) = batch.briefs.get(idx) {
                     // runs whose templates contain only fields the library knows
-                    let known_only = !o.stats.probes.contains_key("unknown_field_type_value") && !r.stats.probes.contains_key("unknown_field_record_with_feature_off") && !o.stats.probes.contains_key("unknown_field_in_template");
-                    if known_only {
+                    if !o.has_unknown_fields && !r.has_unknown_fields {
                         compared += 1;
-                        if o.stats.digest != r.stats.digest {
-                            differing.push(r.index);
+                        if o.digest != r.digest {
+                            differing.push(*idx);
                         }
                     }
                 }
@@ -489,7 +556,7 @@ pub fn check(args: &[String]) -> i32 {
             for idx in differing.iter().take(3) {
                 let run_seed = crate::rng::derive_seed(seed, crate::prop_tag(&prop), *idx);
                 let (t, _) = crate::profiles::gen_trace(&prop, run_seed);
-                let path = format!("{}/replays/C17-crossbuild-{}.json", ROOT, run_seed);
+                let path = format!("{}/replays/C17-crossbuild-{}.json", out(), run_seed);
                 let rf = ReplayFile {
                     property: prop.clone(),
                     verif_seed: seed,
@@ -503,9 +570,9 @@ pub fn check(args: &[String]) -> i32 {
                 verdict.violations.push(("C17-feature-off-differs-on-known-fields".into(), path));
             }
             // findings of the feature-off build count too
-            let agg2 = aggregate(&b2.reports);
+            let agg2 = &b2.agg;
             c17_extra = serde_json::json!({
-                "feature_off_runs": b2.reports.len(),
+                "feature_off_runs": b2.agg.evaluations,
                 "cross_build_runs_compared_known_fields_only": compared,
                 "cross_build_differences": differing.len(),
                 "feature_off_probes": agg2.probes,
@@ -530,15 +597,9 @@ pub fn check(args: &[String]) -> i32 {
 
     // samples: regenerate a few traces (generation never calls the parser)
     let mut samples = Vec::new();
-    for r in batch.reports.iter().filter(|r| r.stats.nontrivial).take(3) {
-        let (t, _) = crate::profiles::gen_trace(&prop, r.run_seed);
+    for run_seed in &batch.sample_seeds {
+        let (t, _) = crate::profiles::gen_trace(&prop, *run_seed);
         samples.push(summarize_trace(&t, 6));
-    }
-    if samples.is_empty() {
-        if let Some(r) = batch.reports.first() {
-            let (t, _) = crate::profiles::gen_trace(&prop, r.run_seed);
-            samples.push(summarize_trace(&t, 6));
-        }
     }
     let wall = start.elapsed().as_secs_f64();
     let zero_probes: Vec<&str> = expected_probes(&prop).iter().filter(|p| agg.probes.get(**p).copied().unwrap_or(0) == 0 && agg.fired.get(**p).copied().unwrap_or(0) == 0).cloned().collect();
@@ -592,7 +653,7 @@ pub fn check(args: &[String]) -> i32 {
         "wall_s": wall,
         "violations": verdict.violations.len(),
     });
-    let ev_path = format!("{}/evidence/{}.json", ROOT, prop);
+    let ev_path = format!("{}/evidence/{}.json", out(), prop);
     let _ = std::fs::write(&ev_path, serde_json::to_string_pretty(&evidence).unwrap());
 
     for l in &verdict.known_lines {
@@ -682,7 +743,7 @@ fn classify(
             .as_ref()
             .and_then(|(_, _, s)| s.lines().filter(|l| l.starts_with("EV ")).last().and_then(|l| l.split_whitespace().nth(2)).and_then(|x| x.parse::<usize>().ok()))
             .unwrap_or(0);
-        let path = format!("{}/replays/raw/raw-{}-{}.json", ROOT, prop, run_seed);
+        let path = format!("{}/replays/raw/raw-{}-{}.json", out(), prop, run_seed);
         let rf = ReplayFile {
             property: prop.to_string(),
             verif_seed: seed,
@@ -725,7 +786,7 @@ fn classify(
             continue;
         };
         // the raw file records the first finding of its run; point it at this code
-        let out = format!("{}/replays/{}-{}.json", ROOT, prop, code);
+        let out = format!("{}/replays/{}-{}.json", out(), prop, code);
         let mut ok = false;
         if let Ok(text) = std::fs::read_to_string(&raw) {
             if let Ok(mut rf) = serde_json::from_str::<ReplayFile>(&text) {
@@ -774,8 +835,8 @@ pub fn build_failure(args: &[String]) -> i32 {
     let seed: u64 = std::env::var("VERIF_SEED").ok().and_then(|s| s.parse().ok()).unwrap_or(DEFAULT_SEED);
     let tier = std::env::var("VERIF_TIER").unwrap_or_else(|_| "quick".into());
     let tier = if tier == "thorough" { "thorough" } else { "quick" };
-    let _ = std::fs::create_dir_all(format!("{}/replays", ROOT));
-    let path = format!("{}/replays/C17-build-failure.json", ROOT);
+    let _ = std::fs::create_dir_all(format!("{}/replays", out()));
+    let path = format!("{}/replays/C17-build-failure.json", out());
     let errors: Vec<&str> = text.lines().filter(|l| l.starts_with("error")).collect();
     let _ = std::fs::write(
         &path,
@@ -793,8 +854,8 @@ pub fn build_failure(args: &[String]) -> i32 {
         },
         "assumptions": [], "wall_s": 0.0, "violations": 1,
     });
-    let _ = std::fs::create_dir_all(format!("{}/evidence", ROOT));
-    let _ = std::fs::write(format!("{}/evidence/C17.json", ROOT), serde_json::to_string_pretty(&evidence).unwrap());
+    let _ = std::fs::create_dir_all(format!("{}/evidence", out()));
+    let _ = std::fs::write(format!("{}/evidence/C17.json", out()), serde_json::to_string_pretty(&evidence).unwrap());
     println!("violation code=C17-feature-off-does-not-build :: {}", errors.first().unwrap_or(&""));
     println!("VIOLATION property=C17 replay={}", path);
     1
@@ -813,7 +874,7 @@ pub fn selftest(args: &[String]) -> i32 {
         let mut digests: Vec<BTreeMap<u64, (u64, usize, u64)>> = Vec::new();
         for w in [1usize, 5, 16] {
             let b = run_batch(&exe, prop, seed, n, w, Duration::from_secs(120), None);
-            digests.push(b.reports.iter().map(|r| (r.index, (r.stats.digest, r.findings.len(), r.stats.oracle_evals))).collect());
+            digests.push(b.briefs.iter().map(|(i, r)| (*i, (r.digest, r.findings, r.oracle_evals))).collect());
         }
         let same = digests[0] == digests[1] && digests[1] == digests[2];
         println!("determinism {}: {} runs x worker counts 1/5/16 -> {}", prop, n, if same { "identical" } else { "DIFFERENT" });
